@@ -163,7 +163,7 @@ def run(chk):
         else:
             chk.count("subclass_graphs")
         # changing the returned dictionary never changes the graph
-        before = g.asdict()
+        before = copy.deepcopy(g.asdict())
         victim = g.asdict()
         scramble(victim, rng)
         if not wire.deep_eq(g.asdict(), before) or json.dumps(g.asdict()) != json.dumps(before):
